@@ -254,6 +254,29 @@ macro_rules! run_from_new {
     };
 }
 
+/// The documented OSC parameter limit through the public API: a concrete prefix
+/// `ESC ] ;;;;;;;;;;;;;;;` (15 completed fields, the 16th open), then three symbolic bytes
+/// (text, further separators, terminators, anything), then BEL.  The one-step shapes at the
+/// limit (`step_osc_15/16`) need 25 GB each; this run reaches the same code with the
+/// parser's state concrete up to the symbolic bytes.
+#[kani::proof]
+#[kani::unwind(24)]
+fn osc_param_limit_run() {
+    let s: [u8; 3] = kani::any();
+    let buf: [u8; 21] = [
+        0x1B, b']', b';', b';', b';', b';', b';', b';', b';', b';', b';', b';', b';', b';', b';', b';', b';', s[0], s[1], s[2], 0x07,
+    ];
+    let mut parser = Parser::<anstyle_parse::DefaultCharAccumulator>::new();
+    let mut model: Vt<24> = Vt::new();
+    let mut i = 0;
+    while i < 21 {
+        assert!(lockstep(&mut parser, &mut model, buf[i]), "callbacks agree");
+        i += 1;
+    }
+    kani::cover!(s[0] == b'a' && s[1] == b';' && s[2] == b'b' && model.st == St::Ground);
+    kani::cover!(s[1] == 0x1B);
+}
+
 run_from_new!(run_from_new_1, 1, 5);
 run_from_new!(run_from_new_2, 2, 6);
 run_from_new!(run_from_new_3, 3, 7);
